@@ -1,5 +1,7 @@
 package fiber
 
+import "github.com/valyala/fasthttp"
+
 // C09 — content negotiation follows the RFC 9110 preference order.
 
 // ---------------------------------------------------------------------------
@@ -280,5 +282,72 @@ func VH_C09_offer(caseID int) {
 		vReach("none")
 	} else {
 		vReach("some")
+	}
+}
+
+// VH_C09_format: Format runs the handler of the offer that Accepts selects (the "default" entry may
+// stand anywhere in the list), sets that content type, and falls back to default / 406.
+// case = position of the "default" entry (0..2; 3 = none).
+func VH_C09_format(caseID int) {
+	app := vNewApp(vCfgs[0])
+	// q = 0.d with a symbolic digit d (or 1)
+	qv := func(name string) string {
+		if vChoice(name+"one", 2) == 1 {
+			return "1"
+		}
+		d := vByte(name)
+		vAssume(vAnd(d >= '0', d <= '9'))
+		return "0." + string([]byte{d})
+	}
+	qa := qv("qjson")
+	qb := qv("qhtml")
+	third := []string{"", ", */*;q=0.1", ", text/plain"}[vChoice("third", 3)]
+	accept := "application/json;q=" + qa + ", text/html;q=" + qb + third
+
+	probe := func() *fasthttp.RequestCtx {
+		fctx := &fasthttp.RequestCtx{}
+		fctx.Request.Header.SetMethod("GET")
+		fctx.Request.SetRequestURI("/")
+		fctx.Request.Header.Set("Accept", accept)
+		return fctx
+	}
+	// what negotiation selects among the real offers, in list order
+	c0 := app.AcquireCtx(probe())
+	want := c0.Accepts("text/html", "application/json")
+	app.ReleaseCtx(c0)
+
+	ran := ""
+	mk := func(name string) Handler {
+		return func(Ctx) error { ran += name; return nil }
+	}
+	hs := []ResFmt{{MediaType: "text/html", Handler: mk("H")}, {MediaType: "application/json", Handler: mk("J")}}
+	if caseID < 3 {
+		def := ResFmt{MediaType: "default", Handler: mk("D")}
+		hs = append(hs[:caseID], append([]ResFmt{def}, hs[caseID:]...)...)
+	}
+	fctx := probe()
+	c := app.AcquireCtx(fctx)
+	err := c.Format(hs...)
+	ctype := string(fctx.Response.Header.ContentType())
+	status := fctx.Response.StatusCode()
+	app.ReleaseCtx(c)
+	vAssert(err == nil, "format-no-error")
+	switch want {
+	case "text/html":
+		vReach("negotiated")
+		vAssert(ran == "H", "runs-the-negotiated-handler")
+		vAssert(ctype == "text/html", "content-type-of-the-negotiated-offer")
+	case "application/json":
+		vReach("negotiated")
+		vAssert(ran == "J", "runs-the-negotiated-handler")
+		vAssert(ctype == "application/json", "content-type-of-the-negotiated-offer")
+	default:
+		vReach("not-acceptable")
+		if caseID < 3 {
+			vAssert(ran == "D", "falls-back-to-default")
+		} else {
+			vAssert(ran == "", "no-handler-when-nothing-acceptable")
+			vAssert(status == StatusNotAcceptable, "406")
+		}
 	}
 }
